@@ -15,7 +15,7 @@ void write_prompt() { T("write_prompt"); write("> "); }
 string tp() { object o = this_player(); return o ? file_name(o) : "0"; }
 void net_dead() { L("tp " + tp()); T("net_dead"); L("gone " + ME); destruct(this_object()); }
 void heart_beat() { L("uhb " + ME); }
-void terminal_type(string t) { L("tp " + tp()); T("telnet"); L("ttype " + ME); }
+void set_terminal_type(string t) { L("tp " + tp()); T("telnet"); L("ttype " + ME); }
 void telnet_suboption(string s) { T("telnet"); L("sb " + ME); }
 void cb_ok(string s) { T("input_to"); L("cb " + ME + " " + s); }
 void cb_ok2(string s) { L("cb2 " + ME + " " + s); }
